@@ -28,7 +28,7 @@ FR_DERIVES = ['to_frame', 'to_frame_go', 'to_frame_he', 'ctor_static', 'ctor_go'
               'iter_array_hold', 'relabel_index', 'fillna', 'round', 'level_add_drop_index', 'level_add_columns', 'level_add_drop_columns',
               'neg', 'abs', 'clip', 'cumsum', 'dropna', 'isin', 'rehierarch_index', 'unset_index', 'bloc_assign', 'level_add_index', 'level_drop_index',
               'level_drop_index', 'drop_row_loc', 'drop_rows_loc_list', 'drop_rows_iloc', 'drop_rows_iloc_none', 'drop_bool_series',
-              'relabel_flat_index', 'relabel_flat_columns']
+              'relabel_flat_index', 'relabel_flat_columns', 'sample_rows', 'sample_cols']
 
 
 def index_model_from(ix):
@@ -871,6 +871,10 @@ class FrameOps:
             if how == 'level_add_drop_index':
                 # a level is added to, then dropped from, the index only: the columns pass through untouched
                 return obj.relabel_level_add(index='outer').relabel_level_drop(index=1)
+            if how == 'sample_rows':
+                return obj.sample(index=max(1, len(obj.index) - 1), seed=3)  # rows only: the columns pass through
+            if how == 'sample_cols':
+                return obj.sample(columns=max(1, len(obj.columns) - 1), seed=3)
             if how == 'relabel_flat_index':
                 if obj.index.depth < 2:
                     raise SimulatedFailure('index is not hierarchical')
